@@ -493,3 +493,39 @@ def rowsOf (t : Tbl) (m : String → Match) (s : Sel) : Tbl × Except TErr Tbl :
     | .ok ps => (t1, .ok (selectRows t1 ps))
 
 end TableM
+
+namespace TableM
+open Cache
+
+/-! ### derivations (C14) -/
+
+/-- `cols[names]` / `_select_cols`: the listed columns, the index column first when it was not listed -/
+def selectCols (t : Tbl) (names : List String) : Except TErr Tbl :=
+  let names := if t.index ∈ names then names else t.index :: names
+  match names.mapM (fun c => (t.col c).map (fun v => (c, v))) with
+  | none => .error .keyError
+  | some cols => .ok { t with colNames := names, data := cols, cache := none }
+
+/-- `_copy()` -/
+def copyT (t : Tbl) : Tbl := { t with data := t.colNames.filterMap (fun c => (t.col c).map (fun v => (c, v))), cache := none }
+
+/-- `t * k` -/
+def mulT (t : Tbl) (k : Nat) : Except TErr Tbl :=
+  if k = 0 then .error .valueError else
+  .ok { t with data := t.data.map (fun p => if p.1 ∈ t.colNames then (p.1, (List.replicate k p.2).flatten) else p), cache := none }
+
+/-- `a + b`: a copy of `a` with `b`'s columns appended row-wise -/
+def addT (a b : Tbl) : Except TErr Tbl :=
+  if b.colNames.all (fun c => (a.col c).isSome && (b.col c).isSome) then
+    .ok { a with data := a.data.map (fun p => if p.1 ∈ b.colNames then (p.1, p.2 ++ ((b.col p.1).getD [])) else p), cache := none }
+  else .error .keyError
+
+/-- C14's invariant: the index column is listed, every listed column is present with the table's length -/
+def Rect (t : Tbl) : Prop :=
+  t.index ∈ t.colNames ∧ ∀ c ∈ t.colNames, ∃ v, t.col c = some v ∧ v.length = t.nrows
+
+/-- decidable form, used by the driver -/
+def rectB (t : Tbl) : Bool :=
+  decide (t.index ∈ t.colNames) && t.colNames.all (fun c => match t.col c with | some v => v.length == t.nrows | none => false)
+
+end TableM
